@@ -215,15 +215,16 @@ pub fn run(rep: &mut Report) {
     let iso = Calendar::default();
     let zones = load_zones(rep, &mut rng, 1_200, 30_000, 60);
     rep.add("zones/total", zones.len() as u64);
-    let prov = TableProvider::new(zones.clone());
+    let prov = SwitchProvider::new(zones.clone());
+    // the exported tables end in 2120; the library's own provider goes on applying the zone's rule after that
+    const TABLE_HORIZON: i128 = 4_650_000_000 * SEC;
     let per_zone = if rep.cfg.thorough() { 1_600 } else { 600 };
     let mut evals = 0u64;
     for (zi, z) in zones.iter().enumerate() {
         if !rep.cfg.mine(zi as u64) {
             continue;
         }
-        let zc = zone_class(z);
-        rep.hit(&format!("zones/{zc}"));
+        rep.hit(&format!("zones/{}", zone_class(z)));
         let Out::Ok(tz) = call(|| TimeZone::try_from_identifier_str(&z.name)) else {
             rep.harness_error(format!("zone name {} not accepted", z.name));
             continue;
@@ -239,7 +240,16 @@ pub fn run(rep: &mut Report) {
             }
             3 * NS_PER_DAY + (hi - lo) as i128 * SEC
         };
-        let pts = probe_instants(z, &mut rng, 2, per_zone / 3, per_zone / 6);
+        // real zones twice: through the table provider and through the library's own provider reading the same TZif files
+        let passes = if zone_class(z) == "real" { 2 } else { 1 };
+        for pass in 0..passes {
+        prov.use_fs.set(pass == 1);
+        let zc = if pass == 1 { "real,tzdb-provider" } else { zone_class(z) };
+        let mut pts = probe_instants(z, &mut rng, 2, per_zone / 3, per_zone / 6);
+        if pass == 1 {
+            pts.retain(|t| t.abs() < TABLE_HORIZON - 3_000 * NS_PER_DAY);
+            rep.add("tzdb-provider/instants", pts.len() as u64);
+        }
         for t1 in pts {
             let v = gen_duration(&mut rng);
             let reject = rng.chance(1, 4);
@@ -264,7 +274,7 @@ pub fn run(rep: &mut Report) {
             if !rep.begin() {
                 continue;
             }
-            if t1.abs() > MAXI {
+            if t1.abs() > MAXI || (pass == 1 && t2.abs() >= TABLE_HORIZON) {
                 continue;
             }
             evals += 1;
@@ -501,6 +511,8 @@ pub fn run(rep: &mut Report) {
                 rep.sample(&format!("e{evals}"), || json!({"zone": z.name, "a": t1.to_string(), "b": t2.to_string(), "duration": show10(&v)}));
             }
         }
+        }
+        prov.use_fs.set(false);
     }
     // evaluations = judged groups of calls (add + subtract, the difference laws, the day clauses, the relative-duration
     // clauses), not receivers
